@@ -279,6 +279,41 @@ def headers_and_tables(ctx, ld):
         asg = renames[0]._parent
         run.check(isinstance(asg, ast.Assign) and u(asg.targets[0]).endswith('.headers'), 'R23', where(repo, D), sp.qualname,
                   'stream.headers = renamed headers', 'the de-duplicated names are not used as the field names')
+    # the names the renamer gives out are unique: every name built with the de-duplication format is tried against the names in use
+    # (all incoming headers and every name given out so far) and numbered on until it is free - 'a, a, a (1)' must not become
+    # 'a (1), a (2), a (1)'
+    rn = ctx.N(ld.methods['rename_duplicate_headers'])
+    hp, fmtp = rn.params[0], (rn.params[2] if len(rn.params) > 2 else None)
+    built = [n for n in ast.walk(rn.node) if isinstance(n, ast.BinOp) and isinstance(n.op, ast.Mod) and fmtp in names_in(n.left)] + \
+        [n for n in ast.walk(rn.node) if isinstance(n, ast.Call) and isinstance(n.func, ast.Attribute) and n.func.attr == 'format'
+         and fmtp in names_in(n.func.value)]
+    if not built:
+        raise AnalysisError('load.rename_duplicate_headers: the expression that builds a numbered name was not found')
+    sets_ = {pseudo(a_.targets[0]): a_.value for a_ in ast.walk(rn.node) if isinstance(a_, ast.Assign) and pseudo(a_.targets[0])
+             and isinstance(a_.value, (ast.Call, ast.SetComp)) and hp in names_in(a_.value)
+             and (isinstance(a_.value, ast.SetComp) or u(a_.value.func) in ('set', 'frozenset'))}
+    oku = True
+    for b_ in built:
+        loops_ = []
+        cur = b_
+        while getattr(cur, '_parent', None) is not None and cur is not rn.node:
+            cur = cur._parent
+            if isinstance(cur, ast.While):
+                loops_.append(cur)
+        tried = False
+        for lp_ in loops_[:1]:
+            tests = [t_ for t_ in ast.walk(lp_) if isinstance(t_, ast.Compare) and len(t_.ops) == 1 and isinstance(t_.ops[0], (ast.In, ast.NotIn))
+                     and pseudo(t_.comparators[0]) in sets_]
+            scope_ = lp_
+            while getattr(scope_, '_parent', None) is not None and not isinstance(scope_, (ast.FunctionDef, ast.AsyncFunctionDef)):
+                scope_ = scope_._parent
+            adds = [c_ for c_ in ast.walk(scope_) if isinstance(c_, ast.Call) and isinstance(c_.func, ast.Attribute) and c_.func.attr == 'add'
+                    and pseudo(c_.func.value) in sets_]     # (inside the loop, or right after it in the same function)
+            tried = bool(tests) and bool(adds)
+        oku = oku and tried
+    run.check(oku, 'R23', rn.where, rn.qualname, 'a numbered name is tried against the names in use and numbered on until free',
+              'the names given to duplicate headers are not checked against the headers already in use: "a, a, a (1)" becomes '
+              '"a (1), a (2), a (1)" - still not unique, and one column is lost from every row')
     # the decision "there are duplicate headers" is a uniqueness test of the (optionally lower-cased) stream headers, wherever
     # it is computed (inline or in a helper of the class / module)
     scope = [sp.node] + [f.node for f in repo.functions.values() if f.module is sp.module and f is not sp and
